@@ -7,8 +7,8 @@ var powStub = []string{"in stub-hash runs the 243-word hash state handed to the 
 var plans = map[string]propPlan{
 	"C13": {
 		Engine:   "powsim",
-		Quick:    []flavPlan{{"plain", 14000, 200}, {"race", 2400, 50}, {"auto", 5000, 100}, {"386", 2000, 100}},
-		Thorough: []flavPlan{{"plain", 500000, 1000}, {"race", 60000, 200}, {"auto", 200000, 500}, {"386", 60000, 500}},
+		Quick:    []flavPlan{{"plain", 14000, 200}, {"race", 2400, 50}, {"auto", 5000, 100}, {"autorace", 600, 25}, {"386", 2000, 100}},
+		Thorough: []flavPlan{{"plain", 500000, 1000}, {"race", 60000, 200}, {"auto", 200000, 500}, {"autorace", 12000, 50}, {"386", 60000, 500}},
 		Rule: "one evaluation = one simulated Mine call (version, worker count, data, target, hash mode, find plan, cancellation plan, scheduling strategy all drawn from the run seed) executed under the seeded scheduler; " +
 			"a run is non-trivial if the schedule switched actors at least twice and a find or a cancellation occurred; distinct = distinct hashes of the executed (actor, yield site) sequence among non-trivial runs",
 		Real: powReal, Stub: powStub,
@@ -17,7 +17,7 @@ var plans = map[string]propPlan{
 	},
 	"C11": {
 		Engine:   "powsim",
-		Quick:    []flavPlan{{"plain", 12000, 200}, {"auto", 2000, 100}, {"386", 1500, 100}},
+		Quick:    []flavPlan{{"plain", 16000, 200}, {"auto", 4000, 100}, {"386", 2000, 100}},
 		Thorough: []flavPlan{{"plain", 400000, 1000}, {"race", 20000, 200}, {"auto", 40000, 500}, {"386", 40000, 500}},
 		Rule: "one evaluation = one simulated uncancelled v1 Mine call (workers 1..16, data, target at / one ulp around 3^k/len or trivially low, real or crafted hashes, scheduling strategy from the run seed); the returned nonce is judged by the reference score and by pow.Score; " +
 			"non-trivial if at least two actor switches occurred and a worker found a nonce; distinct = distinct (actor, yield site) sequences among those",
@@ -26,7 +26,7 @@ var plans = map[string]propPlan{
 	},
 	"C12": {
 		Engine:   "powsim",
-		Quick:    []flavPlan{{"plain", 12000, 200}, {"auto", 2000, 100}, {"386", 1500, 100}},
+		Quick:    []flavPlan{{"plain", 16000, 200}, {"auto", 4000, 100}, {"386", 2000, 100}},
 		Thorough: []flavPlan{{"plain", 250000, 1000}, {"race", 20000, 200}, {"auto", 40000, 500}, {"386", 40000, 500}},
 		Rule: "one evaluation = one simulated uncancelled v2 Mine call (single worker with pass-over scan, or 1..16 workers for soundness; len*target at / around 3^s, up to 2^64-1; real or crafted hashes at T-1, T, T+1, Q, Q+1, one-zero-fewer lanes on both sides of the threshold, lanes 0 / 63); " +
 			"non-trivial if at least two actor switches occurred and a worker found a nonce; distinct = distinct (actor, yield site) sequences among those",
@@ -47,8 +47,8 @@ var plans = map[string]propPlan{
 	},
 	"C06": {
 		Engine:   "curlsim",
-		Quick:    []flavPlan{{"plain", 14000, 200}, {"purego", 5000, 200}, {"racepurego", 800, 25}},
-		Thorough: []flavPlan{{"plain", 300000, 2000}, {"purego", 150000, 2000}, {"racepurego", 15000, 100}},
+		Quick:    []flavPlan{{"plain", 14000, 200}, {"purego", 5000, 200}, {"racepurego", 800, 25}, {"386", 3000, 200}},
+		Thorough: []flavPlan{{"plain", 300000, 2000}, {"purego", 150000, 2000}, {"racepurego", 15000, 100}, {"386", 60000, 1000}},
 		Rule: "one evaluation = one history of 4..16 calls (Absorb of 0..3 blocks in six trit patterns, Squeeze of 0..3 blocks, Clone, Reset with a new batch size, CopyState, and injected caller errors: empty batch, 65 lanes, trit count not a multiple of 243) over up to 4 live handles with batch sizes 1..64, " +
 			"each handle compared after every call with its own set of independent single-lane reference sponges; non-trivial if the history has at least two state-changing calls; distinct = distinct hashes of the executed call sequence (handle, call, sizes, pattern) among those. " +
 			"Both build configurations of the permutation (amd64 assembly = flavour plain, portable = flavour purego) are run",
